@@ -3,6 +3,7 @@
 package main
 
 import (
+	"io"
 	"context"
 	"bufio"
 	"bytes"
@@ -141,7 +142,7 @@ func TestVerifC19Config(t *testing.T) {
 
 func TestVerifC19Behaviour(t *testing.T) {
 	L := ev.Begin("C19", "c19-behaviour", "exploration",
-		"upstream {answers at once, holds its response headers until released (plain request, event-stream request, proxy with a flush interval), answers at once and streams its body for 1.5s} x proxy.responseheadertimeout {unset, 200ms, 5s} through transport.SetConfig + main.newHTTPProxy + ServeHTTP: a held upstream with the 200ms limit must produce 504 while the upstream is still holding (causal: the harness releases the upstream only after the proxy answered; a 20s guard turns 'never answered' into the violation); an upstream answering at once yields 200 under every setting. non-trivial = every case")
+		"upstream {answers at once, holds its response headers until released (plain request, event-stream request, proxy with a flush interval, an https upstream silent in the TLS handshake), answers at once and streams its body for 1.5s} x proxy.responseheadertimeout {unset, 200ms, 5s} through transport.SetConfig + main.newHTTPProxy + ServeHTTP: a held upstream with the 200ms limit must produce 504 while the upstream is still holding (causal: the harness releases the upstream only after the proxy answered; a 20s guard turns 'never answered' into the violation); an upstream answering at once yields 200 under every setting. non-trivial = every case")
 	var hold atomic.Value
 	var slow atomic.Value // if set: the upstream answers at once and then streams its body for this long
 	slow.Store(time.Duration(0))
@@ -165,7 +166,7 @@ func TestVerifC19Behaviour(t *testing.T) {
 	}))
 	defer up.Close()
 	for _, rh := range []time.Duration{0, 200 * time.Millisecond, 5 * time.Second} {
-		for _, mode := range []string{"prompt", "held", "held/event-stream-request", "held/flush-interval", "prompt/slow-body"} {
+		for _, mode := range []string{"prompt", "held", "held/event-stream-request", "held/flush-interval", "held/in-tls-handshake", "prompt/slow-body"} {
 			held := strings.HasPrefix(mode, "held")
 			if (held || mode == "prompt/slow-body") && rh != 200*time.Millisecond {
 				continue // without the short limit a held upstream simply holds the client, as configured
@@ -173,7 +174,7 @@ func TestVerifC19Behaviour(t *testing.T) {
 			cfg := &config.Config{}
 			cfg.Proxy.ResponseHeaderTimeout = rh
 			cfg.Proxy.DialTimeout = 5 * time.Second
-			if mode == "prompt/slow-body" {
+			if mode == "prompt/slow-body" || mode == "held/in-tls-handshake" {
 				cfg.Proxy.DialTimeout = 300 * time.Millisecond
 			}
 			if mode == "held/flush-interval" {
@@ -183,7 +184,24 @@ func TestVerifC19Behaviour(t *testing.T) {
 			cfg.Proxy.Strategy, cfg.Proxy.Matcher, cfg.GlobCacheSize = "rr", "prefix", 10
 			transport.SetConfig(cfg)
 			hp := newHTTPProxy(cfg, c19Stats())
-			tbl, err := route.NewTable(bytes.NewBufferString("route add svc / http://" + up.Listener.Addr().String() + "/\n"))
+			dst := "http://" + up.Listener.Addr().String() + "/"
+			var stall net.Listener
+			if mode == "held/in-tls-handshake" {
+				// an https upstream that accepts the TCP connection and then says nothing: establishing the
+				// connection is bounded by the dial timeout, the answer by the response header timeout
+				stall, _ = net.Listen("tcp", "127.0.0.1:0")
+				go func() {
+					for {
+						c, err := stall.Accept()
+						if err != nil {
+							return
+						}
+						go func() { io.Copy(io.Discard, c); c.Close() }()
+					}
+				}()
+				dst = "https://" + stall.Addr().String() + "/"
+			}
+			tbl, err := route.NewTable(bytes.NewBufferString("route add svc / " + dst + "\n"))
 			if err != nil {
 				panic(err)
 			}
@@ -221,7 +239,12 @@ func TestVerifC19Behaviour(t *testing.T) {
 			d["answered_while_upstream_holding"], d["elapsed"] = answered, time.Since(start).String()
 			if held {
 				close(release)
-				<-done
+				if stall != nil {
+					stall.Close()
+				}
+				if answered {
+					<-done
+				}
 				select {
 				case <-entered:
 				default:
